@@ -215,6 +215,15 @@ Example C10_nonvacuous :
        [(0, LEnter); (1, LExit Exc); (6, LEnter); (7, LCancel); (7, LDeliver); (7, LExit Exc)] = Some (Ended Exc).
 Proof. vm_compute. repeat split. Qed.
 
+(* run() over the EMPTY group waits on nothing and returns at once; C10_run_returns holds vacuously *)
+Example C10_run_empty_group :
+  let c := mkC (fun _ => None) (fun _ => actor_restart_delay_us) in
+  match grun c g_init [(5, GRunCall 0 [] []); (5, GRunRet 0)] with
+  | Some st => g_runret st 0%nat = true /\ g_run st 0%nat = Some ([], [])
+  | None => False
+  end.
+Proof. vm_compute. split; reflexivity. Qed.
+
 Print Assumptions C10_restart_count.
 Print Assumptions C10_restart_count_cancelled_in_delay.
 Print Assumptions C10_restart_count_any_state.
